@@ -72,9 +72,13 @@ def simulated(hid, inst, kind, nagents, r):
     try:
         w = OrchWorld(dcop, algo, cg, dist, infinity=INFV, seed=r.randrange(10 ** 6))
         # an agent that hosts nothing may come up late: after the orchestrator has handled the run request
-        late = [a for a in sorted(dcop.agents)[-spare:] if a not in dist.agents or not dist.computations_hosted(a)][:1] if spare and r.random() < 0.7 else []
-        w.boot_all(order=r, lazy=r.random() < 0.5, hold=late)
-        stuck = w.solve(late=late)
+        late = [a for a in sorted(dcop.agents)[-spare:] if a not in dist.agents or not dist.computations_hosted(a)][:1] if spare and r.random() < 0.35 else []
+        # (otherwise the agents start in a random order, lazily half of the time: an idle agent may well register before a hosting one)
+        # ... and one of the hosting agents may be the last of all to come up
+        hosting = sorted({dist.agent_for(n.name) for n in cg.nodes})
+        last = [r.choice(hosting)] if len(dcop.agents) > 1 and r.random() < 0.4 else []
+        w.boot_all(order=r, lazy=r.random() < (0.8 if spare else 0.5), hold=list(late) + last)
+        stuck = w.solve(late=late, last=last)
     finally:
         rec.uninstall()
     if w.exc:
@@ -94,19 +98,43 @@ def threaded(hid, inst, kind, nagents, r):
     old = sys.getswitchinterval()
     sys.setswitchinterval(r.choice([1e-6, 1e-5, 1e-4, 5e-3]))
     rec = ProtocolRecorder([n.name for n in cg.nodes]).install()
+    from pydcop.infrastructure.agents import Agent as _Agent
+    _orig_start = _Agent.start
+
+    def _start(agent, *a, **k):
+        agent.t.daemon = True        # a run that does not end must not keep the checking process alive
+        return _orig_start(agent, *a, **k)
+    _Agent.start = _start
     try:
         orch = run_local_thread_dcop(algo, cg, dist, dcop, INFV)
         stuck = ""
-        try:
-            orch.deploy_computations()
-            orch.run(timeout=20)
-        except Exception as e:
-            stuck = "orchestrator raised %s" % type(e).__name__
-            orch.stop_agents(5)
-            orch.stop()
+        import threading
+        box = {}
+
+        def drive():
+            try:
+                orch.deploy_computations()
+                orch.run(timeout=20)
+            except Exception as e:          # noqa
+                box["exc"] = type(e).__name__
+        th = threading.Thread(target=drive, daemon=True)
+        th.start()
+        th.join(90)             # deploy_computations() and run() wait on events without a timeout of their own
+        if th.is_alive():
+            stuck = "deploy_computations() / run() did not return within 90 s"
+        elif "exc" in box:
+            stuck = "orchestrator raised %s" % box["exc"]
+        if stuck:
+            try:
+                orch._own_agt.stop()
+                for a in getattr(orch, "_local_agents", []) or []:
+                    a.stop()
+            except Exception:
+                pass
     finally:
         sys.setswitchinterval(old)
         rec.uninstall()
+        _Agent.start = _orig_start
     if orch.status == "TIMEOUT":
         rec.ev.insert(0, {"e": "timeout"})      # (the timer belongs to the harness's call of run(): it may fire at any moment)
     return outcome(hid, inst, doms, dcop, orch, stuck, INFV), {"mode": "threads", "dist": kind, "agents": nagents,
